@@ -20,6 +20,12 @@ structure InvA (P : Preset) (es : EncState) (ss : Spec.State) : Prop where
 theorem WFT.winv {P : Preset} {te : TermEnc} (h : WFT P te) (hp : 0 < P.maxNames) : WInv te :=
   ⟨h.wfn, h.wfp, h.wfd, by rw [h.maxn]; exact hp, fun h0 => h.p0 (h.maxp ▸ h0)⟩
 
+/-- `pinned` is invisible to the exact mirror. -/
+theorem XM.startRow {te : TermEnc} {ss : Spec.State} (m : XM te ss) : XM te.startRow ss :=
+  ⟨⟨⟨m.n.em.size, m.n.em.len, m.n.em.la, m.n.em.res⟩, m.n.conv⟩,
+   ⟨⟨m.p.em.size, m.p.em.len, m.p.em.la, m.p.em.res⟩, m.p.conv⟩,
+   ⟨⟨m.d.em.size, m.d.em.len, m.d.em.la, m.d.em.res⟩, m.d.conv⟩⟩
+
 theorem run_final_unique {ss s1 s2 : Spec.State} {rows : List Row}
     (h1 : ∀ rest acc i, Spec.run ss (rows ++ rest) acc i = Spec.run s1 rest acc (i + rows.length))
     (h2 : ∀ rest acc i, Spec.run ss (rows ++ rest) acc i = Spec.run s2 rest acc (i + rows.length)) :
@@ -90,16 +96,16 @@ theorem triple_audit {P : Preset} {T : Keys} (hf : TFits P T) {es : EncState} {s
   have inv := ia.inv
   obtain ⟨te1, te2, te3, r1, r2, r3, ws, wp, wo, R3, e1, e2, e3, sim, res⟩ :=
     spoSlots_sim hf (inv.wft.tinv T) es.rep s p ob hs hp hob ks kp ko
-  have w0 : WInv es.te := inv.wft.winv hf.posn
+  have w0 : WInv es.te.startRow := inv.wft.startRow.winv hf.posn
   obtain ⟨g1, f1⟩ := encSlot_good (spo_good s) w0 e1
   obtain ⟨g2, f2⟩ := encSlot_good (spo_good p) g1.inv e2
   obtain ⟨g3, f3⟩ := encSlot_good (spo_good ob) g2.inv e3
   have hopts : ss.opts ≠ none := by rw [hopt]; simp
-  obtain ⟨ssE, mE, fE, runE⟩ := sim.ing ss inv.em hopts
-  obtain ⟨ssA, xA, fA, runA, audA⟩ := ((g1.ing.trans g2.ing).trans g3.ing) ss ia.xm hopts
+  obtain ⟨ssE, mE, fE, runE⟩ := sim.ing ss inv.em.startRow hopts
+  obtain ⟨ssA, xA, fA, runA, audA⟩ := ((g1.ing.trans g2.ing).trans g3.ing) ss ia.xm.startRow hopts
   have hEA : ssA = ssE := run_final_unique runA runE
   subst hEA
-  have hself : setLR ssA es.te = ssA :=
+  have hself : setLR ssA es.te.startRow = ssA :=
     setLR_eq_self (fE.lrn.trans inv.lrn) (fE.lrp.trans inv.lrp) (fE.lrd.trans inv.lrd)
   have hres := res ssA (mE.agree sim.inv.wft R3) (fE.rep ▸ inv.rs) (fE.rep ▸ inv.rp) (fE.rep ▸ inv.ro)
   rw [hself] at hres
@@ -162,18 +168,18 @@ theorem quad_audit {P : Preset} {T : Keys} (hf : TFits P T) {es : EncState} {ss 
   obtain ⟨te4, r4, wg, R4, e4, s4, res4⟩ :=
     encSlot_sim sim3.inv es.rep.g g (graph_sim hf g te3 R3 hg sim3.inv kg)
   have sim := sim3.trans s4
-  have w0 : WInv es.te := inv.wft.winv hf.posn
+  have w0 : WInv es.te.startRow := inv.wft.startRow.winv hf.posn
   obtain ⟨g1, f1⟩ := encSlot_good (spo_good s) w0 e1
   obtain ⟨g2, f2⟩ := encSlot_good (spo_good p) g1.inv e2
   obtain ⟨g3, f3⟩ := encSlot_good (spo_good ob) g2.inv e3
   obtain ⟨g4, f4⟩ := encSlot_good (graph_good g) g3.inv e4
   have hopts : ss.opts ≠ none := by rw [hopt]; simp
-  obtain ⟨ssE, mE, fE, runE⟩ := sim.ing ss inv.em hopts
+  obtain ⟨ssE, mE, fE, runE⟩ := sim.ing ss inv.em.startRow hopts
   obtain ⟨ssA, xA, fA, runA, audA⟩ :=
-    (((g1.ing.trans g2.ing).trans g3.ing).trans g4.ing) ss ia.xm hopts
+    (((g1.ing.trans g2.ing).trans g3.ing).trans g4.ing) ss ia.xm.startRow hopts
   have hEA : ssA = ssE := run_final_unique runA runE
   subst hEA
-  have hself : setLR ssA es.te = ssA :=
+  have hself : setLR ssA es.te.startRow = ssA :=
     setLR_eq_self (fE.lrn.trans inv.lrn) (fE.lrp.trans inv.lrp) (fE.lrd.trans inv.lrd)
   have ha4 : AgreeT R4 te4 ssA := mE.agree sim.inv.wft R4
   have ha3 : AgreeT R3 te3 ssA := ha4.mono s4.pres s4.sub
@@ -225,20 +231,20 @@ theorem quad_audit {P : Preset} {T : Keys} (hf : TFits P T) {es : EncState} {ss 
 theorem graphStart_audit {P : Preset} {T : Keys} (hf : TFits P T) {es : EncState} {ss : Spec.State}
     (ia : InvA P es ss) {o : Options} (hopt : ss.opts = some o) (h3 : o.physicalType = 3)
     (g : Term) (hg : g.WFGraph = true) (kg : (termKeys (P.maxPrefixes != 0) g).sub T) :
-    ∃ te' rows w ss', es.te.graph g = (te', .ok (rows, w)) ∧ InvA P { es with te := te' } ss' ∧
+    ∃ te' rows w ss', es.te.startRow.graph g = (te', .ok (rows, w)) ∧ InvA P { es with te := te' } ss' ∧
       ss'.opts = some o ∧ ss'.graph = some g.norm ∧
       ∀ lc a rest, lc ≠ some g.norm →
         Spec.runAudit ss lc a (rows ++ [Row.graphStart (some w)] ++ rest) = Spec.runAudit ss' none a rest := by
   have inv := ia.inv
-  obtain ⟨te', rows, w, R', heq, sim, res⟩ := graph_sim hf g es.te {} hg (inv.wft.tinv T) kg
-  have w0 : WInv es.te := inv.wft.winv hf.posn
-  have g1 := graph_good g es.te te' rows w w0 heq
+  obtain ⟨te', rows, w, R', heq, sim, res⟩ := graph_sim hf g es.te.startRow {} hg (inv.wft.tinv T) kg
+  have w0 : WInv es.te.startRow := inv.wft.startRow.winv hf.posn
+  have g1 := graph_good g es.te.startRow te' rows w w0 heq
   have hopts : ss.opts ≠ none := by rw [hopt]; simp
-  obtain ⟨ssE, mE, fE, runE⟩ := sim.ing ss inv.em hopts
-  obtain ⟨ssA, xA, fA, runA, audA⟩ := g1.ing ss ia.xm hopts
+  obtain ⟨ssE, mE, fE, runE⟩ := sim.ing ss inv.em.startRow hopts
+  obtain ⟨ssA, xA, fA, runA, audA⟩ := g1.ing ss ia.xm.startRow hopts
   have hEA : ssA = ssE := run_final_unique runA runE
   subst hEA
-  have hself : setLR ssA es.te = ssA :=
+  have hself : setLR ssA es.te.startRow = ssA :=
     setLR_eq_self (fE.lrn.trans inv.lrn) (fE.lrp.trans inv.lrp) (fE.lrd.trans inv.lrd)
   have hres := res ssA (mE.agree sim.inv.wft R')
   rw [hself] at hres
